@@ -321,60 +321,94 @@ class FailingRecompute(Suite):
 
 
 class ChainForceForms(Suite):
-    """Chain.force(tasks) with every form of the argument - a name, a Task, a list, a tuple, a set, the keys of a mapping,
-    an iterator, a generator, a map object, lists mixing names and Task objects - and every combination of delete_data and
-    recompute: exactly the named tasks and their dependants are marked / deleted / recomputed once.  Runtime check only
-    (the model's force takes a list of tasks)."""
+    """Chain.force(tasks) and MultiChain.force(tasks) with every form of the argument - a name, a Task, a list, a tuple, a
+    set, the keys of a mapping, an iterator, a generator, a map object, lists mixing names and Task objects - with full
+    names and with the shorter forms that identify a task (without its group, without its namespace), and every
+    combination of delete_data and recompute: exactly the named tasks and their dependants are marked / deleted /
+    recomputed once, in the chain or in every member chain.  Runtime check only (the model's force takes a list of tasks)."""
     name = 'chain_force_argument_forms'
     model = ''
     FORMS = ('name', 'task', 'list', 'tuple', 'set', 'dict_keys', 'iterator', 'generator', 'map', 'mixed')
 
     def gen(self, rng, tier):
-        return [dict(form=f, picks=p, delete=d, recompute=r) for f in self.FORMS for p in (['mid'], ['mid', 'src'])
-                for d, r in ((False, False), (True, False), (False, True))
-                if not (f in ('name', 'task') and len(p) > 1)]
+        out = [dict(form=f, picks=p, delete=d, recompute=r, via='chain', spell='full', ns=False) for f in self.FORMS
+               for p in (['mid'], ['mid', 'src']) for d, r in ((False, False), (True, False), (False, True))
+               if not (f in ('name', 'task') and len(p) > 1)]
+        # shorter forms of the names, and the same through a MultiChain
+        out += [dict(form=f, picks=['mid'], delete=d, recompute=False, via=v, spell=sp, ns=ns)
+                for f in ('name', 'list', 'generator') for d in (False, True) for v in ('chain', 'multi')
+                for sp in ('full', 'no_group', 'no_namespace', 'bare') for ns in (False, True)
+                if not (sp in ('no_namespace', 'bare') and not ns) and not (v == 'chain' and sp == 'full' and not ns)]
+        out += [dict(form='list', picks=['mid', 'src'], delete=False, recompute=True, via='multi', spell='bare', ns=True)]
+        return out
 
     def run_impl(self, case):
         from pathlib import Path
-        from taskchain import Config
+        from taskchain import Config, MultiChain
         from .. import pipeline as pl
         from ..suites_chain import K, P
-        classes = [dict(K(0, 'Src'), name='src'), dict(K(1, 'Mid', meta_inputs=[{'cls': 0}]), name='mid'),
-                   dict(K(2, 'Top', meta_inputs=[{'cls': 1}]), name='top'), dict(K(3, 'Side'), name='side')]
-        with pl.workspace(dict(classes=classes, files={})) as (d, mod):
-            ch = Config(Path('data'), name='c', data={'tasks': [f'{mod}.*']}).chain()
-            for t in ch.tasks.values():
-                _ = t.value
-            names = case['picks']
-            arg = {'name': names[0], 'task': ch[names[0]], 'list': list(names), 'tuple': tuple(names), 'set': set(names),
+        classes = [dict(K(0, 'Src'), name='src'), dict(K(1, 'Mid', group='prep', meta_inputs=[{'cls': 0}]), name='mid'),
+                   dict(K(2, 'Top', meta_inputs=[{'cls': 1}], params=[P('k', default=[0])]), name='top'), dict(K(3, 'Side'), name='side')]
+        with pl.workspace(dict(classes=classes, files={'p.json': {'tasks': ['@M.*']}})) as (d, mod):
+            def config(i):
+                data = {'uses': 'p.json as n', 'k': i} if case['ns'] else {'tasks': [f'{mod}.*'], 'k': i}
+                return Config(Path('data'), name=f'c{i}', data=data, context={'k': i})
+            if case['via'] == 'multi':
+                mc = MultiChain([config(0), config(1)])
+                chains = [ch for _, ch in sorted(mc.chains.items())]
+                target = mc
+            else:
+                chains = [config(0).chain()]
+                target = chains[0]
+            for ch in chains:
+                for t in ch.tasks.values():
+                    _ = t.value
+            pre = 'n::' if case['ns'] else ''
+            full = {'src': f'{pre}src', 'mid': f'{pre}prep:mid', 'top': f'{pre}top', 'side': f'{pre}side'}
+            spelled = {'full': full, 'no_group': dict(full, mid=f'{pre}mid'), 'no_namespace': {k: v[len(pre):] for k, v in full.items()},
+                       'bare': {k: k for k in full}}[case['spell']]
+            names = [spelled[p] for p in case['picks']]
+            ch0 = chains[0]
+            arg = {'name': names[0], 'task': ch0[names[0]], 'list': list(names), 'tuple': tuple(names), 'set': set(names),
                    'dict_keys': dict.fromkeys(names).keys(), 'iterator': iter(names), 'generator': (n for n in names),
-                   'map': map(str, names), 'mixed': [ch[n] if i % 2 == 0 else n for i, n in enumerate(names)]}[case['form']]
+                   'map': map(str, names), 'mixed': [ch0[n] if i % 2 == 0 else n for i, n in enumerate(names)]}[case['form']]
             before = len(pl.RUNLOG)
-            ch.force(arg, delete_data=case['delete'], recompute=case['recompute'])
+            target.force(arg, delete_data=case['delete'], recompute=case['recompute'])
             ran = sorted(r[1] for r in pl.RUNLOG[before:])
-            marked = sorted(n for n, t in ch.tasks.items() if t._forced)
-            stored = sorted(n for n, t in ch.tasks.items() if t.data_path.exists())
+            short = {v: k for k, v in full.items()}
+            per_chain = []
+            for ch in chains:
+                per_chain.append(dict(marked=sorted(short[n] for n, t in ch.tasks.items() if t._forced),
+                                      stored=sorted(short[n] for n, t in ch.tasks.items() if t.data_path.exists())))
             before = len(pl.RUNLOG)
-            for t in ch.tasks.values():
-                _ = t.value
-            return dict(ran=ran, marked=marked, stored=stored, ran_after=sorted(r[1] for r in pl.RUNLOG[before:]))
+            for ch in chains:
+                for t in ch.tasks.values():
+                    _ = t.value
+            return dict(ran=ran, chains=per_chain, ran_after=sorted(r[1] for r in pl.RUNLOG[before:]))
 
     def oracle(self, case, obs):
         if 'unexpected_exception' in obs:
             return f'unexpected exception {obs["unexpected_exception"]}: {obs["text"]}'
         down = sorted({'src': {'src', 'mid', 'top'}, 'mid': {'mid', 'top'}}['src' if 'src' in case['picks'] else 'mid'])
+        slug = {'src': 'src', 'mid': 'prep:mid', 'top': 'top', 'side': 'side'}
         everything = ['mid', 'side', 'src', 'top']
-        what = f'Chain.force({case["form"]} of {case["picks"]}, delete_data={case["delete"]}, recompute={case["recompute"]})'
+        n = len(obs['chains'])
+        # through a MultiChain src and mid are one object in both chains, top is one object per chain
+        runs_of = lambda names: sorted(slug[x] for x in names for _ in range(n if x == 'top' else 1))
+        what = (f'{"MultiChain" if case["via"] == "multi" else "Chain"}.force({case["form"]} of {case["picks"]} spelled {case["spell"]}'
+                f'{" under a namespace" if case["ns"] else ""}, delete_data={case["delete"]}, recompute={case["recompute"]})')
         if case['recompute']:
-            if obs['ran'] != down or obs['ran_after']:
-                return f'{what}: recomputed {obs["ran"]} and later {obs["ran_after"]}; the named tasks and their dependants are {down}, once each'
+            got = sorted(set(obs['ran']))
+            if got != sorted(slug[x] for x in down) or obs['ran_after']:
+                return f'{what}: recomputed {obs["ran"]} and later {obs["ran_after"]}; the named tasks and their dependants are {down}'
             return None
-        if obs['marked'] != down:
-            return f'{what}: marked {obs["marked"]}; the named tasks and their dependants are {down}'
-        if case['delete'] and obs['stored'] != sorted(set(everything) - set(down)):
-            return f'{what}: stored results left: {obs["stored"]}; those of {down} are to be removed and no other'
-        if obs['ran_after'] != down:
-            return f'{what}: the next requests ran {obs["ran_after"]}; expected {down}'
+        for i, c in enumerate(obs['chains']):
+            if c['marked'] != down:
+                return f'{what}: chain {i} has {c["marked"]} marked; the named tasks and their dependants are {down}'
+            if case['delete'] and c['stored'] != sorted(set(everything) - set(down)):
+                return f'{what}: chain {i}: stored results left: {c["stored"]}; those of {down} are to be removed and no other'
+        if obs['ran_after'] != runs_of(down):
+            return f'{what}: the next requests ran {obs["ran_after"]}; expected {runs_of(down)}'
         return None
 
     def nontrivial(self, case, obs):
